@@ -58,7 +58,7 @@ TCbRet == IsEvent("cb_ret") /\ Calm /\ cbSeen /\ Ev.rc = 0 /\ M!CbRet /\ cbSeen'
 TPoll == /\ Skip("poll") /\ Calm /\ M!PokeIdle
          /\ LET mask == (IF waitR THEN 1 ELSE 0) + (IF waitW THEN 2 ELSE 0)
             IN IF mask = 0 THEN Ev.fds = <<>> ELSE Ev.fds = <<<<0, mask>>>>
-TClose == /\ IsEvent("close") /\ Calm /\ expImmCancel' = imm /\ M!Close /\ UNCHANGED <<expImmReg, cbSeen>>
+TClose == /\ IsEvent("close") /\ Calm /\ CtxOK /\ expImmCancel' = imm /\ M!Close /\ UNCHANGED <<expImmReg, cbSeen>>
 TImmCancel == /\ IsEvent("immcancel") /\ expImmCancel /\ expImmCancel' = FALSE /\ UNCHANGED <<mvars, expImmReg, cbSeen>>
 TShutdown == Skip("shutdown") /\ Calm /\ ~open
 TCloseRet == Skip("close_ret") /\ Calm /\ ~open
